@@ -17,7 +17,8 @@ if ! git apply --check "$S/patch.diff" 2>/dev/null; then
 else
   git apply "$S/patch.diff"
 fi
-T=$(/venv/bin/python -m pytest -q -p no:cacheprovider 2>&1 | tail -1)
+# the repository is installed in /venv in editable mode (pointing at /repo/src): the copy must come first on the path
+T=$(PYTHONPATH="$D/src" /venv/bin/python -m pytest -q -p no:cacheprovider 2>&1 | tail -1)
 PYTHONPATH=src timeout 600 /venv/bin/python _seed/demo.py > mut.out 2>&1; M=$?
 echo "$S: demo clean exit=$C, demo changed exit=$M, tests: $T"
 for c in ${@:-$P}; do
